@@ -381,21 +381,27 @@ func subtractTrieAtDepth[D0, D1 any](t0 *trie.Trie[bitstr.Key, D0],
 //   - GapsInTrie: ["0001", "0011", "01"]
 func TrieGaps[K kad.Key[K], D any](t *trie.Trie[bitstr.Key, D], target bitstr.Key, order K) []bitstr.Key {
 	if t.IsLeaf() {
-		if k := t.Key(); k != nil {
-			if IsBitstrPrefix(target, *k) {
-				siblingPrefixes := SiblingPrefixes(*k)[len(target):]
-				sortBitstrKeysByOrder(siblingPrefixes, order)
-				return siblingPrefixes
-			}
-			if IsBitstrPrefix(*k, target) {
-				// The only key in the trie is a prefix of target, meaning the whole
-				// target is covered.
-				return nil
-			}
-		}
-		return []bitstr.Key{target}
+		return leafGaps(t.Key(), target, order)
 	}
 	return trieGapsAtDepth(t, 0, target, order)
+}
+
+// leafGaps returns the gaps at the `target` location of a trie holding the
+// single key `k` (or no key at all if `k` is nil).
+func leafGaps[K kad.Key[K]](k *bitstr.Key, target bitstr.Key, order K) []bitstr.Key {
+	if k != nil {
+		if IsBitstrPrefix(target, *k) {
+			siblingPrefixes := SiblingPrefixes(*k)[len(target):]
+			sortBitstrKeysByOrder(siblingPrefixes, order)
+			return siblingPrefixes
+		}
+		if IsBitstrPrefix(*k, target) {
+			// The only key is a prefix of target, meaning the whole target is
+			// covered.
+			return nil
+		}
+	}
+	return []bitstr.Key{target}
 }
 
 func trieGapsAtDepth[K kad.Key[K], D any](t *trie.Trie[bitstr.Key, D], depth int, target bitstr.Key, order K) []bitstr.Key {
@@ -409,6 +415,12 @@ func trieGapsAtDepth[K kad.Key[K], D any](t *trie.Trie[bitstr.Key, D], depth int
 		bstr := bitstr.Key(byte('0' + i))
 		if b := t.Branch(i); b == nil {
 			gaps = append(gaps, bstr)
+		} else if b.IsLeaf() && !insideTarget && depth+1 < target.BitLen() {
+			// The trie ends above the target: the gaps are those of this single
+			// leaf at the target location, not the siblings of the leaf.
+			for _, gap := range leafGaps(b.Key(), target, order) {
+				gaps = append(gaps, gap[depth:])
+			}
 		} else if b.IsLeaf() {
 			if b.HasKey() {
 				k := *b.Key()
